@@ -102,7 +102,7 @@ func summarizeDeltaInterp(p *core.Prog, fn *ssa.Function, perIteration bool) []d
 			continue
 		}
 		feasible, eqs := ps.AtomEqualities()
-		if !feasible {
+		if !feasible || !ps.ConstFeasible() { // (the delta's own fields are only read here: two tests of δ.Operation agree)
 			continue
 		}
 		dp := deltaPath{Eqs: eqs, End: ps.End}
